@@ -233,6 +233,14 @@ def gen_can_desc(rng, mode):
                 for f in arrs:
                     if scal and rng.random() < 0.4 and mode != "aligned":
                         blocks.append(f'    signal {f[0]} {{ mux_count: {rng.randint(1, 4)}, mux_signal: "{rng.choice(scal)[0]}", }},')
+                # a switch that is an ELEMENT of an array field which has a signal block of its own (all elements share that
+                # block), or a nested leaf that shares its field name with the switch: only the named leaf is the multiplexer
+                arr_blocks = [f for f in fs if f[2][0] == "arr" and f[2][1][0] in ("u", "i") and
+                              any(b.startswith(f"    signal {f[0]} ") for b in blocks)]
+                free_scal = [f for f in scal if not any(b.startswith(f"    signal {f[0]} ") for b in blocks)]
+                if arr_blocks and free_scal and rng.random() < 0.5 and mode != "aligned":
+                    a = rng.choice(arr_blocks)
+                    blocks.append(f'    signal {rng.choice(free_scal)[0]} {{ mux_count: {rng.randint(2, 4)}, mux_signal: "{a[0]}_{rng.randrange(a[2][2])}", }},')
                 if blocks and rng.random() < 0.15 and mode != "aligned":
                     # a signal block name written twice, the later one with other options (the first block of a name counts),
                     # and the documented `bitstart` field, which the packed layout does not use
